@@ -10,10 +10,11 @@ for pid in ids:
     if pid not in REGISTRY: continue
     c = REGISTRY[pid]; proved = bool(c.get('P'))
     tech = ('contract-based deductive verification: VCs generated from the real source (ast) against sidecar contracts, discharged by z3/cvc5' if proved else '') + \
-           ('; ' if proved and c.get('R') else '') + ('bounded run-time contracts of the real functions against oracles written from the property (labelled bounded, never counted as proved)' if c.get('R') else '')
+           ('; syntactic contract obligations decided on the real AST (argument forwarding / guard placement; soft: undecided without a bounded witness)' if c.get('S') else '') + \
+           ('; ' if (proved or c.get('S')) and c.get('R') else '') + ('bounded run-time contracts of the real functions against oracles written from the property (labelled bounded, never counted as proved)' if c.get('R') else '')
     checks.append({"property_id": pid, "quick_cmd": "./check %s --tier quick" % pid, "thorough_cmd": "./check %s --tier thorough" % pid, "evidence_file": "evidence/%s.json" % pid,
                    "replay_cmd_template": "./check %s --replay {path}" % pid, "engine": "pyvc+rtc" if proved and c.get('R') else ("pyvc" if proved else "rtc"),
-                   "level_claimed": {"category": c['level'], "text": c['explanation'], "design_ref": "DESIGN.md section 5, " + pid},
+                   "level_claimed": {"category": c['level'], "text": c['explanation'], "design_ref": "DESIGN.md section 12 (as built) and section 5, " + pid},
                    "level_note": c.get('note', "Proved part (if any): trusts the VC generator pyvc and its encoding of Python (DESIGN.md section 3), z3/cvc5, the prelude axioms. Bounded part: covers only the stated scopes; pandas/numpy/scipy semantics are outside any prover present."),
                    "technique": tech})
 m = {"version": 1, "setup_cmd": "./setup.sh",
@@ -22,7 +23,7 @@ m = {"version": 1, "setup_cmd": "./setup.sh",
      "engines": [{"name": "pyvc", "path": "pyvc/", "serves_properties": [p for p in ids if p in REGISTRY and REGISTRY[p].get('P')], "kind_free_text": "engine P: verification-condition generator over the real Python source (ast), sidecar contracts in contracts/, discharged by z3 (E-matching, MBQI retry) and cvc5"},
                  {"name": "rtc", "path": "rtc/", "serves_properties": [p for p in ids if p in REGISTRY and REGISTRY[p].get('R')], "kind_free_text": "engine R: bounded run-time contract checks of the real functions against oracles / reference models (never counted as proved)"}],
      "checks": checks,
-     "notes": "fix: commits in /repo (genuine defects found by the checks, see known_findings.json and DESIGN.md section 7): " + ' | '.join(fix_commits),
+     "notes": "fix: commits in /repo (genuine defects found by the checks, see known_findings.json and DESIGN.md section 14): " + ' | '.join(fix_commits),
      "not_applicable": [{"property_id": p, "reason": NOT_APPLICABLE.get(p, "check not built yet (work in progress; see DESIGN.md section 5 for the plan)")} for p in ids if p not in REGISTRY]}
 json.dump(m, open(ROOT + '/MANIFEST.json', 'w'), indent=1)
 print('checks:', [c['property_id'] for c in checks], 'n/a:', [x['property_id'] for x in m['not_applicable']])
